@@ -610,7 +610,7 @@ def documented_errors():
 
 def main():
     rng = random.Random(SEED)
-    rounds = 120 if TIER == "quick" else 6000
+    rounds = 120 if TIER == "quick" else 20000
     drivers = ["first_derivative", "second_derivative", "third_derivative", "second_partial_derivative", "third_partial_derivative",
                "third_partial_derivative_vec", "gradient", "hessian", "jacobian", "partial_hessian"]
     for r in range(rounds):
